@@ -17,6 +17,8 @@ def one(diff):
             return diff, "PATCH-FAILED " + r.stderr[-200:], {}
         env = dict(os.environ, MMD_REPO=tmp, MMD_EVIDENCE=os.path.join(tmp, "ev"), MMD_CACHE=os.path.join(tmp, "cache"))
         props = [c["property_id"] for c in json.load(open(os.path.join(HERE, "MANIFEST.json")))["checks"]]
+        if os.environ.get("MMD_PROPS"):
+            props = [p for p in props if p in os.environ["MMD_PROPS"].split(",")]
         bad = {}
         for p in props:
             r = subprocess.run([os.path.join(HERE, "check"), p], capture_output=True, text=True, env=env)
